@@ -27,6 +27,8 @@ def loop_model(blk: dict, entry: int) -> dict:
 
     if blk.get("late"):
         do_while = blk["open"]  # signal arrives a step later: an open gate lets the body start first
+    elif blk.get("gate_late"):
+        do_while = blk["open"]  # the gate cannot decide in the first step: an open gate lets the body start first
     else:
         do_while = blk["signal"]
     if entry > 0 or do_while:
